@@ -561,6 +561,18 @@ impl Engine for C15 {
                 emit(&format!("LC|key={}|dir={}", k, d));
             }
         }
+        // sibling directories whose names are string prefixes of one another (a / ab, journal /
+        // journal-2024): path arithmetic must work on segments, not on text
+        let prefixed: Vec<String> = ["a", "ab", "a/a", "a/ab", "ab/a", "ab/ab", "journal/x", "journal-2024/x", "journal/2024/x"].iter().map(|s| s.to_string()).collect();
+        let mut pdirs = vec![String::new(), "journal".to_string(), "journal-2024".to_string()];
+        pdirs.extend(prefixed.iter().cloned());
+        for k in &prefixed {
+            for d in &pdirs {
+                emit(&format!("L1|key={}|dir={}", k, d));
+                emit(&format!("L4|key={}|dir={}|ext=", k, d));
+                emit(&format!("LC|key={}|dir={}", k, d));
+            }
+        }
         let us = urls();
         for law in ["L3", "L2", "L2d"] {
             for u in &us {
